@@ -10,6 +10,8 @@ func init() {
 		Fixtures:    []string{"n"},
 		Run:         runC17,
 		SelfTest: []Mutation{
+			{Name: "polynomial deflation works in the caller's coefficients", File: "numerical/polynomial.go",
+				Old: "\ttemp := append(Polynomial{}, p...)\n", New: "\ttemp := p\n", Rule: "Q", Expect: "Polynomial"},
 			{Name: "ridge penalty added to a column instead of the diagonal", File: "numerical/least_squares.go",
 				Old: "\tleftSide[0] += lambda\n\tleftSide[4] += lambda\n\tleftSide[8] += lambda\n", New: "\tfor i := 0; i < 3; i++ {\n\t\tleftSide[i*3] += lambda\n\t}\n", Rule: "DIAGADD", Expect: "LeastSquaresReg3"},
 			{Name: "finer search result returned unconditionally (defect repaired)", File: "numerical/dense_search.go",
@@ -62,6 +64,11 @@ func runC17(c *Ctx) {
 	// ridge terms and shifts go on the diagonal
 	c.runDiagAdd("DIAGADD", pkgs, nil)
 	c.floor("DIAGADD", 0)
+	// evaluation and root finding leave the caller's coefficients alone
+	qAllExported = true
+	c.runQueryPurityFor(newEffEngine(c), c.libPkgs()[4:5], "Q", map[string][]string{})
+	qAllExported = false
+	c.floor("Q", 4)
 	c.runPascal("PASCAL")
 	c.floor("PASCAL", 10)
 }
